@@ -69,6 +69,9 @@ def _ident(stream):
     return stream
 
 
+MAPTEXT = {'rev': lambda d: d[::-1], 'dup': lambda d: d + d}
+
+
 def rec_path_class(rec):
     """a Path subclass that records, per select link (keyed by its index in the chain), the list of
     Path.test() results into `rec`"""
@@ -140,6 +143,13 @@ def apply_op(t, i, op, bufs, RecPath):
         return t.substitute(op[1], op[2], op[3])
     if name == 'filter':
         return t.filter(_dropc if op[1] == 'dropc' else _ident)
+    if name == 'maptext':
+        return t.map(MAPTEXT[op[1]], TEXT)
+    if name == 'trace':
+        import io
+        log = io.StringIO()
+        bufs.setdefault('trace', []).append(log)        # (not a StreamBuffer: skipped where buffers are listed)
+        return t.trace('T ', fileobj=log)
     if name in ('remove', 'unwrap', 'empty', 'invert', 'end', 'buffer'):
         return getattr(t, name)()
     raise ValueError(op)
@@ -208,10 +218,12 @@ def run_transformer(doc, t, bufs, rec):
         out['status'] = 'err'
         out['err'] = 'NoTermination'
         out['marked'] = out['marked'][:50]
-        for b in bufs.values():
-            b.reset()                 # may hold millions of events
-    for i, b in sorted(bufs.items()):
+        for i, b in bufs.items():
+            if i != 'trace':
+                b.reset()                 # may hold millions of events
+    for i, b in sorted((i, b) for i, b in bufs.items() if i != 'trace'):
         out['bufs'][i] = G.from_genshi(list(b))
+    out['trace'] = [len(log.getvalue().splitlines()) for log in bufs.get('trace', [])]
     return out
 
 
@@ -222,7 +234,7 @@ OPCLASS = {'select': 'SelectTransformation', 'remove': 'RemoveTransformation', '
            'prepend': 'PrependTransformation', 'append': 'AppendTransformation', 'rename': 'RenameTransformation',
            'attr': 'AttrTransformation', 'attrfn': 'AttrTransformation', 'copy': 'CopyTransformation',
            'cut': 'CutTransformation', 'map': 'MapTransformation', 'substitute': 'SubstituteTransformation',
-           'filter': 'FilterTransformation'}
+           'filter': 'FilterTransformation', 'trace': 'TraceTransformation', 'maptext': 'MapTransformation'}
 
 
 def run_tree(case):
@@ -241,8 +253,12 @@ def run_tree(case):
         history.append([[type(l).__name__ for l in t.transforms] for t in nodes])
     runs = []
     for k in case['apply']:
-        for b in bufs.values():
-            b.reset()
+        for i, b in bufs.items():
+            if i != 'trace':
+                b.reset()
+        for log in bufs.get('trace', []):
+            log.seek(0)
+            log.truncate()
         rec.clear()
         real = run_transformer(case['doc'], nodes[k], bufs, rec)
         real['rec'] = dict((i, list(v) if isinstance(v, list) else v) for i, v in rec.items())
@@ -336,6 +352,9 @@ def oracle_chain(case, real=None):
         if out != inp:
             return fail(case, 'selections only: identity', _short(inp), _short(out))
         return None
+    if names == ['select', 'trace'] and real.get('trace') is not None and \
+            [n for n in real['trace'] if n] != [len(real['marked'])][:len(real['marked'])]:
+        return fail(case, 'trace prints one line per item it passes on', [len(real['marked'])], real.get('trace'))
     if len(ops) == 2 and names[0] == 'select' and names[1] not in ('select', 'invert', 'end', 'buffer', 'map',
                                                                       'substitute', 'filter'):
         if 'text' in ops[0][1] or not G.plain_doc(doc):
@@ -364,7 +383,7 @@ def oracle_chain(case, real=None):
         exp = G.spec_apply(doc, sel, selattrs, op)
         if exp is None:
             return None
-        if op[0] in ('remove', 'copy', 'cut', 'empty', 'unwrap', 'rename', 'attr', 'attrfn'):
+        if op[0] in ('remove', 'copy', 'cut', 'empty', 'unwrap', 'rename', 'attr', 'attrfn', 'trace', 'maptext'):
             if out != exp:
                 return fail(case, WHAT[op[0]], _short(exp), _short(out))
         else:
@@ -397,6 +416,8 @@ WHAT = {
     'remove': 'removal deletes exactly the selected nodes',
     'cut': 'cut deletes exactly the selected nodes',
     'copy': 'copy leaves the stream unchanged',
+    'trace': 'trace leaves the stream unchanged',
+    'maptext': 'map(function, TEXT) changes exactly the selected text',
     'empty': 'empty removes the content of the selected elements only',
     'unwrap': 'unwrap removes exactly the START/END of the selected elements',
     'rename': 'rename changes exactly the tag of the selected elements',
@@ -710,7 +731,7 @@ def valid_path(p):
         return False
 
 
-ARITY = {'wrapel': 4, 'attrfn': 3, 'select': 2, 'remove': 1, 'unwrap': 1, 'empty': 1, 'invert': 1, 'end': 1, 'buffer': 1, 'wrap': 3,
+ARITY = {'trace': 1, 'maptext': 2, 'wrapel': 4, 'attrfn': 3, 'select': 2, 'remove': 1, 'unwrap': 1, 'empty': 1, 'invert': 1, 'end': 1, 'buffer': 1, 'wrap': 3,
          'replace': 2, 'before': 2, 'after': 2, 'prepend': 2, 'append': 2, 'rename': 2, 'attr': 3, 'copy': 3,
          'cut': 3, 'map': 2, 'substitute': 4, 'filter': 2}
 
@@ -758,6 +779,8 @@ def valid_case(case):
                                             (op[2] is None or isinstance(op[2], str))):
                     return False
                 if op[0] in ('copy', 'cut') and not (isinstance(op[1], int) and isinstance(op[2], bool)):
+                    return False
+                if op[0] == 'maptext' and op[1] not in MAPTEXT:
                     return False
                 if op[0] == 'substitute' and not (isinstance(op[1], str) and op[1].isalnum() and
                                                   isinstance(op[2], str) and '\\' not in op[2] and isinstance(op[3], int)):
@@ -902,8 +925,10 @@ def w_op(i, op, rec):
         if rec.get(('raised', i)):
             return Atom('SELFAIL')
         return [Atom('SEL'), [w_res(jres(ev, r)) for ev, r in rec.get(i, [])]]
-    if n in ('invert', 'end', 'empty', 'remove', 'unwrap', 'buffer'):
+    if n in ('invert', 'end', 'empty', 'remove', 'unwrap', 'buffer', 'trace'):
         return Atom(n)
+    if n == 'maptext':
+        return [Atom('maptext'), Atom(op[1])]
     if n == 'wrap':
         return [Atom('wrap'), ['', op[1]], [[['', k], v] for k, v in op[2]]]
     if n == 'wrapel':
@@ -1100,7 +1125,7 @@ def process(cases, res):
                     res.count('op:' + o[0])
                 res.count('chain-status:' + real['status'] + (':' + real['err'] if real['err'] else ''))
                 hits = [sum(1 for _, r in v if r is True or r) for k_, v in sorted((k2, v2) for k2, v2 in real['rec'].items() if isinstance(k2, int))]
-                if any(isinstance(k2, tuple) for k2 in real['rec']):
+                if any(isinstance(k2, tuple) and k2[0] == 'raised' for k2 in real['rec']):
                     res.count('chain:path-test-raised')
                 res.count('first-select:' + ('matches' if hits and hits[0] else 'empty'))
                 res.count('chain:' + ('in' if in_theorem_class(c['ops']) else 'outside') + '-chain_wellnested')
@@ -1174,7 +1199,7 @@ def shard(arg):
 def run(ctx):
     res = Result()
     nsh = 16
-    per = ctx.n(2000, 50000)
+    per = ctx.n(1500, 50000)
     for r in pmap('harness.props.c20', 'shard', [(ctx.seed, i, per) for i in range(nsh)]):
         res.merge(r)
     res.rule = ('chains: distinct (operation names, path strings, set of marks in the final marked stream, its length) with at '
